@@ -153,9 +153,15 @@ def discharge(ob: Obligation, want_model: bool = True, second_opinion: bool = Fa
         else:
             s.add(c)
     if ob.kind == "cover":
+        ob.backend = "z3-5.1.0"
+        if small_scope(list(s.assertions()), 2000, (1, 2, 3)) is not None:
+            ob.status = "proved"
+            ob.detail = "sat (small-scope witness of the precondition)"
+            ob.ms = (time.time() - t0) * 1000
+            return
+        s.set("timeout", 3000)
         r = s.check()
         ob.ms = (time.time() - t0) * 1000
-        ob.backend = "z3-5.1.0"
         if r == z3.unsat:
             ob.status = "refuted"
             ob.detail = "precondition/type invariants are contradictory (vacuous contract)"
